@@ -78,6 +78,11 @@ func exprSexpr(tm *t.Map, n *a.Expr, nodes *[]*a.Expr) (string, bool) {
 		*nodes = append(*nodes, n)
 	}
 	if cv := n.ConstValue(); cv != nil {
+		// constants are ideal in the model; a typed constant (`5 as base.u8`) is
+		// outside the fragment (its type decides the type of its parent).
+		if typ := n.MType(); typ != nil && !typ.IsIdeal() && !typ.IsBool() {
+			return "", false
+		}
 		return "c " + cv.String(), true
 	}
 	op := n.Operator()
